@@ -73,8 +73,19 @@ def run(rep, progs, tier):
     rep.rule("C01.cancel", "result of oneshot send never reaches a branch / return")
     rep.rule("C01.single-writer", "connection operations only from do_connect and the loop functions; connection never shared")
     rep.trusted = ["rustc MIR construction", "mpdfacts exporter", "tokio mpsc FIFO and oneshot delivery"]
+    rep.rule("C01.one-line", "imported from C07 (owner of the encoder): one request = one protocol line — name alphabet, list framing words, "
+             "argument LF check; a request that carries a second line gets two replies and shifts every later pairing")
+    rep.rule("C01.segmentation", "imported from C02: only streaming combinators in the line parser (a reply cut at any byte is 'need more', not an error "
+             "that would leave its bytes in the buffer for the next caller)")
     for cfg, prog in progs.items():
         one(rep, prog, cfg)
+        from .C02 import streaming_rule
+        from .C07 import arg_rules, name_rules
+        with rep.importing("C07.", "C01.one-line."):
+            name_rules(rep, prog, cfg)
+            arg_rules(rep, prog, cfg)
+        with rep.importing("C02.streaming", "C01.segmentation"):
+            streaming_rule(rep, prog, cfg)
 
 
 def one(rep, prog, cfg):
